@@ -50,7 +50,18 @@ def rule_strip(ctx):
     # the only way to leave the loop early is the backslash guard
     extra = [c for c in conds if c[0] not in ("chunk.GetType() != CT_IGNORED",) and "GetStr()" not in c[0] and "ref->" not in c[0] and "parse_next" not in c[0]
              and "CT_WHITESPACE" not in c[0] and "ctx.more()" not in c[0]]
+    # conditions over the chunk text are the loop test and the backslash guard; nothing may make the strip depend on an option
+    extra += [c for c in conds if "options::" in c[0] or "cpd." in c[0]]
     r.check(not extra, "tokenize/strip-unconditional", db.loc(f, pop), "stripping additionally depends on %s" % extra)
+    # exactly one way to leave the strip loop early: the backslash guard
+    brk = []
+    for b in body:
+        for i, s2 in enumerate(f.succ[b]):
+            if s2 >= 0 and s2 not in body and b != h:
+                t = f.blocks[b].get("term")
+                brk.append(expr_str(f, t.get("lc", t.get("c"))) if t and t.get("c") is not None else "(unconditional)")
+    ok_brk = [c for c in brk if "'\\\\'" in c or ".size() > 1" in c or "' '" in c or "'\\t'" in c or ".size() > 0" in c]
+    r.check(len(ok_brk) == len(brk), "tokenize/strip-early-exits", db.loc(f, pop), "the strip loop can also be left under %s" % [c for c in brk if c not in ok_brk])
     adds = [n for n in f.all_nodes() if n["k"] == "call" and (n.get("c") or "").endswith("CopyAndAddBefore")]
     r.require(len(adds) == 1, "tokenize: %d CopyAndAddBefore calls" % len(adds))
     gate = [b for b, blk in f.blocks.items() if blk.get("term") and expr_str(f, blk["term"].get("lc", blk["term"].get("c"))) == "chunk.GetType() != CT_IGNORED"]
